@@ -73,7 +73,9 @@ func VerifH06dStrictSNI() {
 	overTLS := verifrt.Bool("tls")
 	sni := ""
 	if overTLS {
-		sni = zzName("sni", 2+verifrt.Tier())
+		if verifrt.Bool("sni-present") {
+			sni = zzName("sni", 2+verifrt.Tier())
+		}
 		r.TLS = &tls.ConnectionState{ServerName: sni}
 	}
 	w := &zzRW6{}
